@@ -226,7 +226,22 @@ def rest(ctx):
         good = good and (r == rb or (r[0] == "lv" and r[3] == rb)) and bool(w) and w[-1]["value"] == N.const(b"")
         inloop = [e for e in w if e.loops]
         good = good and all(e["value"][0] in ("uconcat", "concat") and e["value"][1] in (rb, r) or e["value"][1][0] == "lv" for e in inloop)
-    ctx.ob("C10.R4", fi, good, "read() to the end returns the pending units followed by every decoded chunk in order, and empties the buffer", key="read all")
+        if any(e.kind == "ITER" for e in p.events) and any(e.kind == "CALL" and e["func"] == N.selfattr("decoder") for e in p.events):
+            good = good and bool(inloop)          # a chunk that was decoded is appended
+        sw = [e["value"] for e in p.events if e.kind == "SELFWRITE" and e["attr"] == "sincereadwritten"]
+        good = good and len(sw) == 1 and sw[0] == N.mk_add(N.selfattr("sincereadwritten"), ("call", ("free", "len"), (r,), ()))
+    ctx.ob("C10.R4", fi, good, "read() to the end returns the pending units followed by every decoded chunk in order, empties the buffer and advances tell() by what it returned", key="read all")
+    # the guards of read(): only a negative count is refused; the substream is at its end when it returns None or nothing
+    neg = [p for p in paths if p.outcome[0] == "raise" and N.mk_cmp("is not", cnt, N.NONE) in p.guards()]
+    ctx.ob("C10.R4", fi, bool(neg) and all(N.mk_cmp("<", cnt, N.const(0)) in p.guards() for p in neg), "read(count) refuses exactly the negative counts (read(0) is legal)", key="read negative")
+    eofs = {c for p in paths for c in p.guards() if c[0] == "bool" and c[1] == "or" and any(x[0] == "cmp" and x[1] == "is" and x[2][0] == "rawio" for x in c[2])}
+    ok_eof = bool(eofs) and all(len(c[2]) == 2 and any(x[0] == "cmp" and x[1] == "==" and x[2][0] == "call" and x[2][1] == ("free", "len") and x[3] == N.const(0) for x in c[2]) for c in eofs)
+    ctx.ob("C10.R4", fi, ok_eof, "the end of the substream is `data is None or len(data) == 0`", key="read eof test")
+    fi0, p0s = own_method_paths(ctx, "RestreamedBytesIO", "__init__")
+    w0 = {e["attr"]: e["value"] for p in p0s for e in p.events if e.kind == "SELFWRITE"}
+    ctx.ob("C10.R4", fi0, w0.get("rbuffer") == N.const(b"") and w0.get("wbuffer") == N.const(b"") and w0.get("sincereadwritten") == N.const(0)
+           and all(w0.get(a) == ("param", a) for a in ("substream", "decoder", "decoderunit", "encoder", "encoderunit")),
+           "a new RestreamedBytesIO starts with empty buffers, position 0, and the stream / functions / units it was given", key="init state")
     fi, paths = own_method_paths(ctx, "RestreamedBytesIO", "write")
     data = ("param", "data")
     first = [p.events[0] for p in paths if p.events]
@@ -252,7 +267,7 @@ def rest(ctx):
         g = ("call", ("free", "len"), (buf,), ())
         bad = [p for p in paths if g in p.guards()]
         ctx.ob("C10.R4", fi, bool(bad) and all(p.outcome[0] == "raise" for p in bad), "close() refuses a non-empty %s" % buf[2], key="close %s" % buf[2])
-    ctx.floor("C10.R4", 17)
+    ctx.floor("C10.R4", 20)
 
     # ---- R3: lookup tables inverse by construction
     rel = [r for r in M.modules if r.endswith("binary.py")][0]
